@@ -86,6 +86,102 @@ def probes(rng, n):
     return ps
 
 
+# ---- node identity (kind "repr"): every kind lang.Repr distinguishes, boundary values ----------------
+INT_RANGE = {"int": (-2 ** 63, 2 ** 63 - 1), "i8": (-128, 127), "i16": (-2 ** 15, 2 ** 15 - 1), "i32": (-2 ** 31, 2 ** 31 - 1),
+             "i64": (-2 ** 63, 2 ** 63 - 1), "u": (0, 2 ** 64 - 1), "u8": (0, 255), "u16": (0, 2 ** 16 - 1),
+             "u32": (0, 2 ** 32 - 1), "u64": (0, 2 ** 64 - 1), "pint": (-2 ** 63, 2 ** 63 - 1)}
+TEXTS = ["", "a", "1", "01", "-1", "1.0", "2.5", "true", "<nil>", "{4 x}", "{e}", "node1", "node11", "10.0.0.1:6379",
+         "\u043a\u043b\u044e\u0447\u00e9\u4e2d", "x y", "NaN", "+Inf", "255", "-128", "18446744073709551615", "[97 98]"]
+TEXT_KINDS = ["str", "bytes", "stringer", "pstringer", "ppstringer", "err", "verr", "ppstr"]
+F_IP = ["0", "1", "7", "12", "255", "1234", "100000", "999999", "1000000", "123456789012", "100000000000000000000"]
+F_FP = ["", "5", "25", "125", "001", "0001", "00001", "000012345", "123456789"]
+
+
+def float_sig(ip, fp):
+    d = (ip + fp).lstrip("0")
+    return len(d.rstrip("0") if not fp else d)
+
+
+def float_text(rng, bits):
+    """the shortest round-trip decimal text of a float32 / float64: at most 6 / 15 significant digits"""
+    while True:
+        ip, fp = rng.choice(F_IP), rng.choice(F_FP)
+        if float_sig(ip, fp) <= (6 if bits == 32 else 15) and not (bits == 32 and len(ip) > 30):
+            neg = rng.random() < 0.3 and (ip + fp).strip("0") != ""
+            return ("-" if neg else "") + ip + ("." + fp if fp else "")
+
+
+def repr_values(rng, n):
+    vs = []
+    for _ in range(n):
+        r = rng.random()
+        if r < 0.3:
+            k = rng.choice(sorted(INT_RANGE))
+            lo, hi = INT_RANGE[k]
+            vs.append(K(k, rng.choice([lo, hi, 0, 1, max(lo, -1), hi // 2, rng.randint(lo, hi), rng.randint(max(lo, -300), min(hi, 300))])))
+        elif r < 0.5:
+            b = rng.choice([32, 64])
+            vs.append(K("f%d" % b, rng.choice([float_text(rng, b)] * 6 + ["NaN", "+Inf", "-Inf"])))
+        elif r < 0.9:
+            vs.append(K(rng.choice(TEXT_KINDS), rng.choice(TEXTS + ["%d" % rng.randrange(300), "k%d" % rng.randrange(50)])))
+        else:
+            vs.append(rng.choice([K("nil", ""), K("bool", "true"), K("bool", "false"), K("struct", rng.randrange(-5, 300))]))
+    return vs
+
+
+def coq_bytes(text):
+    return clist(["%d" % b for b in text.encode("utf-8")])
+
+
+def coq_gval(v):
+    k, t = v["kind"], v["v"]
+    if k in INT_RANGE:
+        lo, hi = INT_RANGE[k]
+        assert lo <= int(t) <= hi, v
+        return "(%s %s)" % ("VPtrInt" if k == "pint" else "VInt", cz(int(t)))
+    if k in ("f32", "f64"):
+        if t == "NaN":
+            return "VNaN"
+        if t in ("+Inf", "-Inf"):
+            return "(VInf %s)" % ("true" if t[0] == "-" else "false")
+        neg = t.startswith("-")
+        ip, _, fp = t.lstrip("-").partition(".")
+        return "(VFloat %s %s %s)" % ("true" if neg else "false", coq_bytes(ip), coq_bytes(fp))
+    if k == "nil":
+        return "VNil"
+    if k == "bool":
+        return "(VBool %s)" % ("true" if t == "true" else "false")
+    if k == "struct":
+        return "(VPair %s %s)" % (cz(int(t)), coq_bytes("x"))
+    ctor = {"str": "VStr", "bytes": "VBytes", "stringer": "VStringer", "pstringer": "VStringer", "ppstringer": "VPPStringer",
+            "err": "VErrPtr", "verr": "VErrVal", "ppstr": "VPPStr"}[k]
+    return "(%s %s)" % (ctor, coq_bytes(t))
+
+
+VNODE_IDX = [0, 9, 10, 99]     # harness/cmd/c15/repr.go vnodeIdx
+
+
+# ---- a twin of a universe value: a DIFFERENT value with the same repr --------------------------------
+def twin(rng, v):
+    k, t = v["kind"], v["v"]
+    if k in ("str", "stringer", "pstringer", "bytes", "verr", "ppstringer", "ppstr"):
+        ks = ["str", "stringer", "pstringer", "pstringer", "bytes", "verr", "ppstr"]
+        if t.lstrip("-").isdigit() and str(int(t)) == t and abs(int(t)) < 100:
+            ks += ["int", "i64", "i8", "pint"] + (["u8", "u"] if int(t) >= 0 else [])
+        k2 = rng.choice([q for q in ks if q != k or q in ("pstringer", "ppstr")])
+        return K(k2, t)
+    if k in INT_RANGE:
+        ks = ["str", "stringer", "pstringer", "pint", "pint"] + [q for q in INT_RANGE if INT_RANGE[q][0] <= int(t) <= INT_RANGE[q][1]]
+        return K(rng.choice([q for q in ks if q != k or q == "pint"]), t)
+    if k == "struct":
+        return S("{%s x}" % t)
+    if k == "bool":
+        return S(t)
+    if k in ("f32", "f64"):
+        return S(t)
+    return None
+
+
 class C15(Property):
     id = "C15"
     title = "Consistent hashing: deterministic, member-only, minimally disruptive"
@@ -163,7 +259,7 @@ class C15(Property):
         """Direct monitor: the empty-ring error path of the two users of the ring (white-box, the public
         constructors exit on a zero total weight): EVERY method of kv.Store / cache.Cache must fail with
         ErrNoRedisNode / the cluster's errNotFound, never panic or succeed."""
-        fails = []
+        fails = self._hash_monitor(ctx)
         for pkg in ("kv", "cache"):
             rel = "core/stores/%s/verif_c15_test.go" % pkg
             rc, out, res = vlib.go_test_overlay("./core/stores/%s" % pkg,
@@ -301,12 +397,145 @@ class C15(Property):
         return fails
 
     def corpus(self):
-        return self._ring_corpus() + [
+        return self._value_corpus() + self._repr_corpus() + self._ring_corpus() + [
             self._cluster("cache", [100, 100], ["a", "b", "c", "user:1", "user:2", "order#77", "x", "y"]),
             self._cluster("cache", [100, 1, 0, 50], ["k%d" % i for i in range(24)]),
             self._cluster("kv", [100], ["a", "b", "c"]),
             self._cluster("kv", [10, 100, 100], ["k%d" % i for i in range(24)]),
         ] + self._script_corpus() + self._conc_corpus()
+
+    # ---- the VALUE of a member: last added value wins (seeded C15-10) ---------------------------------
+    def _value_corpus(self):
+        """Membership is keyed by the repr, a lookup returns the VALUE stored in the slots.  Different values
+        with equal repr (two pointers with the same String(), int 7 / "7" / a Stringer printing 7 / int64,
+        a struct and the string fmt.Sprint gives for it) are re-added over each other with the same effective
+        replica count — same weight, same count, counts equal only after truncation to h.replicas, zero — and
+        after a Remove: every answer must be the value of the LATEST add of that repr."""
+        P = [S("key%d" % i) for i in range(34)] + [I(42), ST("user:7")]
+        A = "10.0.0.1:6379"
+        res = []
+        for R, over, over2 in ((0, 150, 1000), (150, 200, 100000)):
+            Reff = max(R, 100)
+            nodes = [PST(A), PST(A), S("10.0.0.2:6379"), I(7), S("7"), ST("7"), I64(7), K("struct", 4), S("{4 x}"),
+                     K("pint", 7), PST(A), K("bytes", "7")]
+            ops = [["add", 0], ["add", 2], ["add", 1],                        # another pointer, same weight
+                   ["addw", 3, 50], ["addw", 4, 50], ["addw", 5, 50],         # 7, "7", Stringer 7: equal weight
+                   ["addr", 6, over], ["addr", 9, over2], ["add", 11],        # equal only after truncation; Add
+                   ["add", 7], ["add", 8], ["addw", 7, 100],                  # struct / its text
+                   ["remove", 1], ["add", 0], ["add", 10], ["addr", 1, Reff], # after a Remove; a third pointer
+                   ["addr", 3, 1], ["addr", 4, 1], ["addw", 5, 1], ["addr", 6, 1],   # one virtual node each time
+                   ["addw", 4, 0], ["addr", 5, -3], ["addw", 3, 0],           # no virtual node: nobody answers for 7
+                   ["addw", 4, 99], ["addr", 3, Reff - 1],                    # 99 % of 100 / 150 is not Reff - 1 for 150
+                   ["remove", 2], ["add", 10], ["add", 0]]
+            res.append({"hash": "murmur", "mod": 0, "r": R, "nodes": nodes, "ops": ops, "probes": P})
+        # the same class on a small-range and on an edge-valued hash function (shared slots: Remove filters by repr)
+        for hk, mod in (("small", 37), ("edge", 16)):
+            res.append({"hash": hk, "mod": mod, "r": 0, "nodes": [PST("n1"), PST("n1"), I(5), S("5"), S("other")],
+                        "ops": [["add", 0], ["add", 4], ["add", 1], ["addw", 2, 10], ["addw", 3, 10], ["add", 0],
+                                ["addr", 3, 200], ["addr", 2, 100], ["remove", 4], ["add", 1], ["remove", 0], ["add", 3], ["add", 2]],
+                        "probes": P[:30]})
+        # hash values at the ends of uint64 (0, 2^63 and above, MaxUint64): a key hashing exactly onto a virtual
+        # node, below the least, above the greatest (wrap to the least)
+        res.append({"hash": "edge", "mod": 256, "r": 0, "nodes": [S("alpha"), S("beta"), S("gamma")],
+                    "ops": [["addr", 0, 3], ["addr", 1, 2], ["addr", 2, 4], ["remove", 0], ["addr", 0, 5], ["remove", 1], ["remove", 2],
+                            ["remove", 0], ["addr", 1, 1]],
+                    "probes": [S("key%d" % i) for i in range(80)]})
+        return res
+
+    # ---- node identity (harness/cmd/c15/repr.go, Repr.v) ------------------------------------------------
+    def _repr_case(self, vals):
+        return {"kind": "repr", "nodes": vals, "hash": "murmur", "mod": 0, "r": 0, "ops": [], "probes": []}
+
+    def _repr_corpus(self):
+        vals = []
+        for k in sorted(INT_RANGE):
+            lo, hi = INT_RANGE[k]
+            vals += [K(k, x) for x in sorted(set([lo, hi, 0, 1, 7, 10, max(lo, -1), max(lo, -128), min(hi, 255)]))]
+        for k in TEXT_KINDS:
+            vals += [K(k, t) for t in TEXTS]
+        vals += [K("nil", ""), K("bool", "true"), K("bool", "false"), K("struct", 4), K("struct", -1), K("struct", 0)]
+        for b, texts in ((64, ["0", "1", "7", "2.5", "-2.5", "0.1", "0.25", "255", "100000", "999999", "1000000", "1234567", "0.0001",
+                               "0.00001", "0.000012345", "123456.789", "123456789012.125", "100000000000000000000", "-0.001", "NaN", "+Inf", "-Inf"]),
+                         (32, ["0", "1", "7", "2.5", "-2.5", "0.1", "0.25", "255", "100000", "999999", "1000000", "0.0001", "0.00001",
+                               "1234.5", "-1000000", "16777200", "NaN", "+Inf", "-Inf"])):
+            vals += [K("f%d" % b, t) for t in texts]
+        return [self._repr_case(vals)]
+
+    def _coq_repr(self, case, obs):
+        hx = lambda h: clist(["%d" % b for b in bytes.fromhex(h)])
+        n = len(VNODE_IDX)
+        rows = []
+        for v, row in zip(case["nodes"], obs["rx"]):
+            adds = clist(["(%d, %s)" % (i, hx(t)) for i, t in zip(VNODE_IDX, row[3:3 + n])])
+            rems = clist(["(%d, %s)" % (i, hx(t)) for i, t in zip(VNODE_IDX, row[3 + n:3 + 2 * n])])
+            rows.append("mkPval %s %s %s %s %s %s" % (coq_gval(v), hx(row[0]), hx(row[1]), hx(row[2]), adds, rems))
+        return "ReprCase %s" % clist(rows)
+
+    # ---- hash.go: Hash / Md5 / Md5Hex (direct monitor) ---------------------------------------------------
+    @staticmethod
+    def _murmur3_64(data):
+        """murmur3 x64_128 with seed 0, first half: what github.com/spaolacci/murmur3 Sum64 computes"""
+        M = 2 ** 64 - 1
+        rotl = lambda x, r: ((x << r) | (x >> (64 - r))) & M
+        c1, c2 = 0x87c37b91114253d5, 0x4cf5ad432745937f
+
+        def fmix(k):
+            k ^= k >> 33
+            k = (k * 0xff51afd7ed558ccd) & M
+            k ^= k >> 33
+            k = (k * 0xc4ceb9fe1a85ec53) & M
+            return k ^ (k >> 33)
+
+        h1 = h2 = 0
+        nb = len(data) // 16
+        for i in range(nb):
+            k1 = int.from_bytes(data[16 * i:16 * i + 8], "little")
+            k2 = int.from_bytes(data[16 * i + 8:16 * i + 16], "little")
+            k1 = (rotl((k1 * c1) & M, 31) * c2) & M
+            h1 = ((rotl(h1 ^ k1, 27) + h2) * 5 + 0x52dce729) & M
+            k2 = (rotl((k2 * c2) & M, 33) * c1) & M
+            h2 = ((rotl(h2 ^ k2, 31) + h1) * 5 + 0x38495ab5) & M
+        tail = data[16 * nb:]
+        if len(tail) > 8:
+            k2 = int.from_bytes(tail[8:], "little")
+            h2 ^= (rotl((k2 * c2) & M, 33) * c1) & M
+        if tail:
+            k1 = int.from_bytes(tail[:8], "little")
+            h1 ^= (rotl((k1 * c1) & M, 31) * c2) & M
+        h1 ^= len(data)
+        h2 ^= len(data)
+        h1 = (h1 + h2) & M
+        h2 = (h2 + h1) & M
+        h1, h2 = fmix(h1), fmix(h2)
+        return (h1 + h2) & M
+
+    def _hash_monitor(self, ctx):
+        """hash.go as the ring uses it: Hash is a FUNCTION of the bytes (equal results when evaluated again, the
+        input left untouched — the ring hashes repr+itoa(i) when adding and again when removing, and every key
+        at every lookup); Md5Hex is the hex text of Md5.  Reported, not judged (the property does not say which
+        hash function): whether Hash is still murmur3 x64_128's first half and Md5 still RFC 1321."""
+        import hashlib
+        import random
+        rng = random.Random(ctx.seed * 31 + 15)
+        data = [b"", b"a", b"abc", b"node1" + b"10", b"node11" + b"0", bytes(range(256)), b"\x00", b"\xff" * 17,
+                "\u043a\u043b\u044e\u0447".encode()] + [bytes(rng.randrange(256) for _ in range(n)) for n in (1, 7, 8, 9, 15, 16, 17, 31, 32, 33, 100, 1000)]
+        rc, out, res = vlib.go_run(self.bin, [{"id": 0, "kind": "hashfn", "data": [d.hex() for d in data]}], tag="c15", timeout=300)
+        if rc != 0 or len(res) != 1 or res[0].get("err") or len(res[0].get("rx") or []) != len(data):
+            raise ExecError("c15 hash executor rc=%s: %s" % (rc, out[-1500:]))
+        fails, murmur, md5ok = [], True, True
+        for d, (h1, h2, x1, x2, m1, m2, same) in zip(data, res[0]["rx"]):
+            if h1 != h2 or same != "1":
+                fails.append({"what": "hash.Hash is not a function of its input: Hash(%s) = %s, again %s, input %s" %
+                                      (d.hex()[:40], h1, h2, "unchanged" if same == "1" else "MODIFIED"),
+                              "replay": {"kind": "hashfn", "data": d.hex(), "observed": [h1, h2, same]}})
+            if not (x1 == x2 == m1 == m2):
+                fails.append({"what": "Md5Hex / Md5 disagree or are not functions of their input on %s: %s" % (d.hex()[:40], [x1, x2, m1, m2]),
+                              "replay": {"kind": "hashfn", "data": d.hex(), "observed": [x1, x2, m1, m2]}})
+            murmur = murmur and int(h1) == self._murmur3_64(d)
+            md5ok = md5ok and x1 == hashlib.md5(d).hexdigest()
+        ctx.notes.append("C15 hash.go: %d inputs; Hash %s murmur3 x64_128 (first half, seed 0); Md5/Md5Hex %s RFC 1321 (hashlib)" %
+                         (len(data), "==" if murmur else "IS NOT", "==" if md5ok else "ARE NOT"))
+        return fails[:3]
 
     def _ring_corpus(self):
         P = [S("x"), S("key2"), S("key60"), S("key80"), S("key157"), I(42)] + [S("key%d" % i) for i in range(20)]
@@ -355,9 +584,21 @@ class C15(Property):
                 hk, mod, pool = "murmur", 0, CLEAN
             elif r < 0.7:
                 hk, mod, pool = "murmur", 0, AMBIGUOUS
-            else:
+            elif r < 0.92:
                 hk, mod, pool = "small", rng.choice([7, 37, 211, 1009]), rng.choice([CLEAN, AMBIGUOUS])
+            else:
+                # values spread over the whole uint64 range, 0 and MaxUint64 included (m - 1 divides 2^64 - 1)
+                hk, mod, pool = "edge", rng.choice([4, 6, 16, 18, 52, 256, 258, 772]), rng.choice([CLEAN, AMBIGUOUS])
             nodes = rng.sample(pool, rng.randint(2, 6))
+            # twins: DIFFERENT values with the repr of a node of the universe (another pointer with the same
+            # String(), 7 / "7" / a Stringer printing 7): a later add of a twin must replace the former value
+            twins = {}
+            if rng.random() < 0.45:
+                for k in rng.sample(range(len(nodes)), rng.randint(1, min(2, len(nodes)))):
+                    tw = twin(rng, nodes[k])
+                    if tw is not None:
+                        twins.setdefault(k, []).append(len(nodes))
+                        nodes = nodes + [tw]
             R = rng.choice([0, 0, 0, 0, 50, 120, 150])
             Reff = max(R, 100)
             bigw = rng.random() < 0.1   # weights whose product with h.replicas leaves Go's int: judged by agreement only
@@ -365,6 +606,19 @@ class C15(Property):
             for _ in range(rng.randint(6, 22)):
                 k = rng.randrange(len(nodes))
                 x = rng.random()
+                last = ops[-1] if ops else None
+                if twins and last and last[0] != "remove" and rng.random() < 0.5:
+                    # the previous add again, on a twin of its node, with the same effective count: same call,
+                    # or a count that is the same only after truncation to h.replicas
+                    grp = next(([a] + b for a, b in twins.items() if last[1] == a or last[1] in b), None)
+                    if grp:
+                        k2 = rng.choice([q for q in grp if q != last[1]])
+                        o = [last[0], k2] + last[2:]
+                        eff = max(0, min(add_replicas(last, Reff), Reff))
+                        if rng.random() < 0.4:
+                            o = ["addr", k2, eff if eff < Reff or rng.random() < 0.5 else Reff + rng.choice([1, 50, 900])]
+                        ops.append(o)
+                        continue
                 if x < 0.3:
                     ops.append(["add", k])
                 elif x < 0.55:
@@ -374,6 +628,9 @@ class C15(Property):
                 else:
                     ops.append(["remove", k])
             cases.append({"hash": hk, "mod": mod, "r": R, "nodes": nodes, "ops": ops, "probes": probes(rng, 20)})
+        # node identity: random values of every kind
+        for j in range(max(3, n // 60)):
+            cases.append(self._repr_case(repr_values(rng, 40)))
         # users of the ring: 2-4 node clusters on miniredis through cache.New and kv.NewStore
         for j in range(max(8, n // 8)):
             k = rng.randint(2, 4)
@@ -871,6 +1128,8 @@ class C15(Property):
                                                           zl(obs.get("touch") or []), zl(obs.get("snap") or []))
 
     def coq_case(self, case, obs):
+        if case.get("kind") == "repr":
+            return self._coq_repr(case, obs)
         if case.get("kind") == "conc":
             return self._coq_conc(case, obs)
         if case.get("kind") == "script":
@@ -1071,6 +1330,13 @@ class C15(Property):
         return len(hs) == len(set(hs))
 
     def shrink_candidates(self, case):
+        if case.get("kind") == "repr":
+            vs = case["nodes"]
+            if len(vs) <= 1:
+                return []
+            h = len(vs) // 2
+            return [dict(case, nodes=vs[:h]), dict(case, nodes=vs[h:])] + \
+                   [dict(case, nodes=vs[:i] + vs[i + 1:]) for i in range(len(vs))][:80]
         if case.get("kind") == "conc" and any(not isinstance(st, int) and st[0] == "h" for st in case["sched"]):
             # schedules with a held hashing: cut the schedule after a step; fewer calls inside the window; fewer probes
             res = []
@@ -1138,6 +1404,11 @@ class C15(Property):
         return res[:400]
 
     def nontrivial(self, case, obs):
+        if case.get("kind") == "repr":
+            by = {}
+            for v, row in zip(case["nodes"], obs["rx"]):
+                by.setdefault(row[0], set()).add(v["kind"])
+            return len(by) >= 2 and any(len(ks) >= 2 for ks in by.values())
         if case.get("kind") == "conc":
             return any(w == "ins" or w.startswith("h|") for w in obs.get("res") or []) and len(set(map(tuple, obs["gets"]))) >= 2
         if case.get("kind") == "script":
@@ -1155,6 +1426,8 @@ class C15(Property):
         return changed and two and readd
 
     def features(self, case, obs):
+        if case.get("kind") == "repr":
+            return sorted(set(["repr"] + ["repr_kind=" + v["kind"] for v in case["nodes"]]))
         if case.get("kind") == "conc":
             fs = ["conc", "conc_threads=%d" % len(case["threads"]), "R=%d" % obs["r"],
                   "collision_free" if self._cf(obs) else "collisions"]
@@ -1230,6 +1503,19 @@ class C15(Property):
         fs += ["has_" + k for k in sorted(set(o[0] for o in case["ops"]))]
         if len(set(obs["reprs"])) < len(obs["reprs"]):
             fs.append("equal_reprs")
+            live = {}
+            for o in case["ops"]:
+                rp = obs["reprs"][o[1]]
+                if o[0] == "remove":
+                    live.pop(rp, None)
+                    continue
+                e = self._eff(o, obs["r"])
+                if rp in live and live[rp][1] != o[1] and live[rp][0] == e:
+                    fs.append("other_value_same_repr_same_count" + ("_zero" if e == 0 else ""))
+                    if add_replicas(o, obs["r"]) > obs["r"]:
+                        fs.append("other_value_same_count_after_truncation")
+                live[rp] = (e, o[1])
+            fs = sorted(set(fs), key=fs.index)
         if any(g == -2 for row in obs["gets"] for g in row):
             fs.append("get_panicked")
         if self._f18_shape(case, obs):
@@ -1243,6 +1529,11 @@ class C15(Property):
         return fs
 
     def describe_failure(self, case, obs):
+        if case.get("kind") == "repr":
+            return ("node identity: the strings the ring hashes for a value (rx rows, hex: repr(v) at Get, lang.Repr(v) "
+                    "asked again, innerRepr(v), repr(v)+itoa(i) for i in 0, 9, 10, 99 at Add, the same at Remove) differ "
+                    "between evaluations, Remove does not hash the strings Add hashed, or two values that lang.Repr is "
+                    "specified to identify / distinguish (Repr.v) are distinguished / identified")
         if case.get("kind") == "conc":
             return ("concurrent ring: after a schedule step Get answered a node that has no layer left (its last "
                     "action is a Remove), none although a node has live virtual nodes, or a value that does not own "
